@@ -22,6 +22,7 @@ mod lefcmds;
 mod rawabs;
 mod rawcmds;
 mod tetris;
+mod tetris2;
 mod misc;
 
 use serde_json::Value;
